@@ -152,7 +152,8 @@ OncePerListener ==
          \A l \in L : Cardinality({e \in DOMAIN log : e[1] = l}) =
                       (IF l \in reg[call.t] /\ EventOf(call.p) \in subs[l] THEN 1 ELSE 0)
 
-\* a call on one transform (or its construction with defaults) never changes what another one reads
+\* a call on one transform never changes what another one reads — instances built from the same default
+\* arguments included: they hold no common value that an assignment elsewhere could alter
 DefaultsNotShared ==
     [][built => \A u \in T : (call'.t # u) => stored'[u] = stored[u]]_vars
 
